@@ -73,6 +73,8 @@ CELLV = z3.Function("cell_text", z3.IntSort(), z3.IntSort(), z3.IntSort(), z3.St
 
 def m_open_workbook(ex, st, fn, args, kw):
     kind = fresh(INT, "open_outcome")[0]
+    ex.obligations.append(Obligation("the-workbook-opened-is-the-source:-the-path-or-the-bytes-read-from-the-stream", st.pc,
+                                     z3.BoolVal((len(args) == 1 and args[0] is st.frames[-1].env.get("source_path") and not kw) or (not args and list(kw) == ["file_contents"] and kw["file_contents"] is st.ghost.get("stream_bytes"))), "post", props=["C16", "C17"]))
     if True:
         sb = st.copy(); sb.ghost["fault"] = True; yield sb, Raise(ex.new_builtin_exc(sb, "XLRDError", ["not an Excel file"]))
         sc = st.copy(); sc.ghost["fault"] = True; yield sc, Raise(ex.new_builtin_exc(sc, "OSError", ["seek to an impossible position in a damaged archive"]))
@@ -105,13 +107,14 @@ def m_cell_value(ex, st, fn, args, kw):
     c = st.heap[args[0].oid]; yield st, Sym(STR, CELLV(lift(c["sheet"]).z, lift(c["y"]).z, lift(c["x"]).z))
 
 
-def excel_rows_contract():
+def excel_rows_contract(stream=False):
     def setup(ex, st):
         sheet = fresh(INT, "sheet")[0]; st.pc.append(sheet.z >= 1)
         ns = fresh(INT, "nsheets")[0]; nr = fresh(INT, "nrows")[0]; nc = fresh(INT, "ncols")[0]; st.pc.extend([ns.z >= 1, nr.z >= 0, nc.z >= 0])
-        path = fresh(STR, "path")[0]; st.pc.append(z3.Length(path.z) > 0)
+        if stream: path = Ref("ByteStream"); st.heap[path.oid] = {}
+        else: path = fresh(STR, "path")[0]; st.pc.append(z3.Length(path.z) > 0)
         st.frames[-1].env.update({"source_path": path, "sheet": sheet})
-        st.ghost.update({"sheet0": sheet, "nsheets": ns, "nrows": nr, "ncols": nc, "fault": False, "cannot_open": False, "rows_yielded": 0, "sheet_read": None, "book": None})
+        st.ghost.update({"sheet0": sheet, "nsheets": ns, "nrows": nr, "ncols": nc, "fault": False, "cannot_open": False, "rows_yielded": 0, "sheet_read": None, "book": None, "stream_bytes": None})
         def on_yield(s, v):
             y = lift(s.frames[-1].env["_i0"]).z; k = G(s, "sheet0") - 1; j = z3.Int("j!xr")
             goal = z3.BoolVal(False)
@@ -136,7 +139,23 @@ def excel_rows_contract():
     return c
 
 
+def m_stream_read(ex, st, recv, args, kw):
+    b = Opaque(); st.ghost["stream_bytes"] = b; yield st, b
+
+
 def unit_excel_rows():
+    def make(ctx):
+        c = excel_rows_contract()
+        c2 = excel_rows_contract(stream=True)
+        cal = {"builtin:xlrd.open_workbook": m_open_workbook, "builtin:open": m_open, "ref:Book.sheet_by_index": m_sheet_by_index, "ref:Sheet.cell": m_sheet_cell, "rowio._excel_cell_value": ModelContract(m_cell_value), "ref:ByteStream.read": m_stream_read}
+        A = ["A-XLRD: open_workbook raises only XLRDError / UnicodeError / OSError (audited by fault injection; see known findings for what the audit disproves); sheet_by_index(k) is the k-th sheet; nrows / ncols / cell(y, x)",
+             "_excel_cell_value is used through its contract (cell_text)"]
+        return [{"contract": c, "spec_functions": c._sf, "callees": cal, "assumptions": A, "label": "from a path"},
+                {"contract": c2, "spec_functions": c2._sf, "callees": cal, "assumptions": A + ["a binary stream delivers its content through read() (no error modelled)"], "label": "from a binary stream"}]
+    return ProofUnit("rowio.excel_rows", "excel_rows: requested sheet, every row, one rendered cell per column; missing sheet / broken workbook -> DataFormatError", ["C16", "C06", "C10", "C04"], make, None)
+
+
+def _unused_unit_excel_rows_old():
     def make(ctx):
         c = excel_rows_contract()
         return {"contract": c, "spec_functions": c._sf,
